@@ -558,6 +558,11 @@ def run_input(ck, inp, tag):
 
 
 def run(ck):
+    try:  # translation tie broken -> directed search at the translated functions (RB.Proofs.GenC04b)
+        from corr import gen_failure_class
+        gen_failure_class.directed(ck)
+    except ImportError:
+        pass
     quick = ck.tier == 'quick'
     rng = ck.rng
     ck.pending_search = []
